@@ -29,7 +29,7 @@ ASSUMPTIONS = [
     'pool invariant at entry: p(tick_current) <= sqrt_price <= p(tick_current+1), MIN_SQRT_PRICE <= sqrt_price <= MAX_SQRT_PRICE, fee_rate <= 60000, protocol_fee_rate <= 2500 (C19)',
     'adaptive_fee_info = None (static fee manager); the adaptive manager is covered at function level in C14',
 ]
-OUTSIDE = ['adaptive-fee pools at loop level (per-step rate along a swap)', 'Token-2022 transfer mechanics (C16)', 'two-hop composition (C17)']
+OUTSIDE = ['adaptive-fee pools: the loop invariant I1-I8 / post-conditions with several inner (tick-group) iterations — for adaptive pools only the per-iteration wiring A0-A6 (props/c14w.py) is decided at loop level, the manager functions themselves in C14', 'Token-2022 transfer mechanics (C16)', 'two-hop composition (C17)']
 EXPLANATION = ('swap() is cut at its outer loop header; Inv = {remaining <= amount, price between limit and start price, tick/price link, '
                'protocol fee <= fee sum, accounting ghosts}; obligations: entry => Inv, Inv & one iteration => Inv, Inv & exit => post-conditions')
 
@@ -550,6 +550,9 @@ def run(ctx):
     from props import c17
     tasks += [('handler:single', c17.single_task(False)), ('handler:single_v2', c17.single_task(True)),
               ('handler:two_hop', c17.two_hop_task(False)), ('handler:two_hop_v2', c17.two_hop_task(True))]
+    # adaptive-fee pools: wiring of the manager calls per inner iteration from arbitrary loop states (abstract manager; props/c14w.py)
+    from props import c14w
+    tasks += c14w.tasks()
     ctx.parallel(tasks, max_procs=8)
     ctx.run_kani(['c03.rs'])
 
